@@ -234,6 +234,23 @@ func init() {
 	})
 
 	register(&PropCheck{
+		ID:      "C05",
+		PkgDirs: []string{"internal/transfer"},
+		Level:   "other",
+		Explanation: "Closure units of the real code, executed symbolically over a filesystem model with an effect log. (a) One data frame through the per-stream reader closure of RecvManifestMultiStream (found by name in the current SSA; finalizeFile etc. re-materialised over the same captured cells) on a file state with and without resume metadata: chunk index, length, CRC, payload, previous file content, bitmap and remaining counter are solver variables. Asserted: only a complete in-range chunk with matching CRC is written, at index x chunkSize, with exactly the received bytes; the chunk is marked in the resume metadata only after its write returned, never on CRC mismatch, short frame, open or write failure (fault injection); missing + marked = chunk count; completion only when nothing is missing. (c) Sidecar.Flush: the effects are mkdir, create/write of the .tmp file, one rename onto the final path, under the sidecar mutex, dirty kept on failure. (e) For every crash cut of that effect log (temp file written in 8-byte blocks) the final path holds the previous or the new version and the real LoadSidecar is run on it. Codec and torn-prefix rejection are the C06.roundtrip / C06.damage obligations.",
+		Rule:        "assertion sites: engine-side assertions of the reader and Flush closure/method units",
+		Assumptions: []string{"SIGKILL = cut of the effect log; rename is atomic; page cache vs power loss not modelled", "paper step (DESIGN §5 C05): with several readers and the ticker, each flush snapshot is taken under the mutex and contains only bits set earlier, each bit is set after its own write in program order, so per-thread order plus atomic replacement suffice for every interleaving; the interleavings themselves are not explored", "one-shot goroutines of read/writeWithTimeout run to completion when spawned; timers never fire", "frame invariant: remaining + marked = chunk count; chunk size 4, <= 2 (quick) / 3 (thorough) chunks; sidecars of <= 8 chunks"},
+		Bounds:      func(tier string) string { return "reader: <= 2 chunks of 4 bytes (quick), <= 3 (thorough), payload 0..5 bytes present; Flush: sidecars of <= 8 chunks, every cut of the effect log" },
+		Jobs: func(tier string, prog *ssa.Program) []*Job {
+			n := 2
+			if tier == "thorough" {
+				n = 3
+			}
+			return []*Job{jobRecvReader("C05.reader", n, false), jobRecvReader("C05.reader-faults", n, true), jobFlush("C05.flush", 8, false), jobFlush("C05.flush-faults", 8, true)}
+		},
+	})
+
+	register(&PropCheck{
 		ID:      "C06",
 		PkgDirs: []string{"internal/transfer"},
 		Level:   "other",
